@@ -10,6 +10,8 @@ ASSUMPTIONS = [
     "an acknowledgement for a request = a PUBACK/PUBCOMP/SUBACK/UNSUBACK carrying its packet id received after the future was stored (the code does not tie the kind of acknowledgement to the kind of request)",
     "'no caller blocks forever' is a quiescence statement in the model and a 2 s watchdog in the harness",
     "fewer than 65535 packet ids are in flight (C18)",
+    "client.Tracker reads time.Now() itself: Tracker.v takes the clock as an argument; Ping/Pong/Pending are tied exactly, Window only up to the interval between the surrounding clock readings; the pinger's rule is tied through the trace scenarios pinger/* (real 1 s keep-alive)",
+    "observation: an unsolicited PINGRESP wraps Tracker's uint8 counter to 255, Pending stays true and the pinger dies with ErrClientMissingPong at its next turn without having sent a PINGREQ (scenario pinger/unsolicited-pong, thorough tier; Tracker.unsolicited_pong_wraps)",
     "observation, not a violation (DESIGN section 6): the client keys acknowledgements by packet id only, so a SUBACK/UNSUBACK/PUBACK carrying the id of a pending request of another kind removes the stored packet and completes that request's future (scenario observe/spurious-suback-erases-publish records it on every run); kept_until_acked and future_truthful are stated for 'an acknowledgement packet carrying that id'",
     "conn.Receive only returns packets the decoder produced (C02): acknowledgements carry a non-zero id",
     "C09_future_truthful is proved in its step form (a future turns Completed only while an acknowledgement carrying the id it is stored under is processed / CONNACK accepted / after the QoS 0 Send returned nil); the history form with log marks is a Definition and is evaluated on every observed trace by the extracted checker truthful_ok",
@@ -22,6 +24,12 @@ KNOWN = {}
 
 def run(ck):
     clcommon.run_cl(ck, "c09", CLAUSES, KNOWN)
+    # client.Tracker against Client/Tracker.v: Ping/Pong/Pending exactly, Window within the interval the clock readings allow
+    if ck.harness_bin and not ck.replay:
+        tpath, _ = ck.harness("tracker", out_name="tracker.txt")
+        tl = [l for l in ck.model("client", "tracker", tpath) if l.startswith("diff ")]
+        if tl and not ck.violations:
+            ck.fail_unwitnessed("correspondence Client/Tracker.v ~ client.Tracker (%d disagreeing cases)" % len(tl), tl[:10])
     ck.rule = ("real client.Client driven through Config.Dialer (RecConn), RecSession around MemorySession and a scripted broker peer; "
                "every observed trace must be accepted by the extracted monitor Client.step (hidden steps placed by search); extracted "
                "predicates store_before_send_ok / truthful_ok / quiescent / pending_futures evaluated after every event; watchers on every "
